@@ -217,7 +217,6 @@ Section P.
     MatchesC r s rest c c' -> Matches r s rest.
   Proof.
     induction 1; try (econstructor; eauto; fail).
-    apply MAltR. assumption.
   Qed.
 
   Lemma matches_annotate r s rest :
@@ -416,8 +415,9 @@ Section P.
       apply seq_inv in H as (u & v & -> & H1 & H2).
       apply seq_inv in H2 as (v1 & v2 & -> & H2 & H3).
       apply endz_inv in H2 as [-> H2]. apply eps_inv in H3. subst v2.
-      cbn [app] in *. subst s2. rewrite !app_nil_r in *.
-      apply (MSeq U a _ u [] []); [rewrite app_nil_r in H1; assumption|].
+      cbn [app] in *. subst s2. rewrite !app_nil_r.
+      rewrite <- (app_nil_r u).
+      apply (MSeq U a _ u [] []); [assumption|].
       apply (MSeq U EndZ Eps [] [] []); constructor.
     - intros H. exists s, []. split; [symmetry; apply app_nil_r|assumption].
   Qed.
